@@ -88,5 +88,12 @@ spec_st = st.one_of(
 )
 
 
+spec_deep = st.one_of(
+    spec_st,
+    G.dag_spec(max_models=7, max_chain=4),
+    G.ring_spec(modes=["suff", "suff_split", "suff_multi", "dpush"], max_n=7),
+)
+
+
 def parts():
-    return [Part("compositions", check, strategy=spec_st, budget={"quick": 1600, "thorough": 100000})]
+    return [Part("compositions", check, strategy=spec_st, strategy_thorough=spec_deep, budget={"quick": 1600, "thorough": 100000})]
